@@ -38,6 +38,12 @@ type c12SockPlan struct {
 	Cuts    []int `json:"cuts,omitempty"`
 	PauseUs int   `json:"pause_us,omitempty"`
 	Hold    int   `json:"hold,omitempty"`
+	// Reserved: what the gateway writes into the reserved octet of the connection header of its tunnelling requests
+	// (a receiver ignores it; the rules of acceptance speak of channel and sequence number only)
+	Reserved int `json:"reserved,omitempty"`
+	// tunnel: after this many events (> 0) the gateway ends the connection with a disconnect request; the client
+	// reconnects, both sides start numbering at 0 again, and the remaining events follow on the new connection
+	ReconnAt int `json:"reconn_at,omitempty"`
 }
 
 func (e c12Event) event() knx.GroupEvent {
@@ -158,6 +164,7 @@ func c12SockRun(p c12SockPlan) (*common.Fail, string) {
 						continue
 					}
 					out := knxnet.AllocAndPack(&knxnet.TunnelReq{Channel: v.Channel, SeqNumber: uint8(k), Payload: &cemi.LDataInd{LData: req.LData}})
+					out[9] = byte(p.Reserved)
 					k++
 					if p.Hold > 0 && k > len(p.Events)-p.Hold {
 						held = append(held, out)
@@ -249,6 +256,7 @@ func c12SockRun(p c12SockPlan) (*common.Fail, string) {
 		go func() {
 			buf := make([]byte, 2048)
 			lastSeq := -1
+			var lastReq []byte
 			for {
 				n, from, err := pc.ReadFromUDP(buf)
 				if err != nil {
@@ -303,9 +311,25 @@ func c12SockRun(p c12SockPlan) (*common.Fail, string) {
 						mu.Unlock()
 					}
 					if int(v.SeqNumber) == lastSeq {
-						continue // a repetition
+						// a repetition: the same request again, octet for octet
+						if !bytes.Equal(buf[:n], lastReq) {
+							mu.Lock()
+							if seen.garbled == "" {
+								seen.garbled = fmt.Sprintf("the repetition of request number %d differs from its first transmission: %x, first %x", lastSeq, buf[:n], lastReq)
+							}
+							mu.Unlock()
+						}
+						continue
+					}
+					if lastSeq >= 0 && int(v.SeqNumber) != (lastSeq+1)%256 {
+						mu.Lock()
+						if seen.garbled == "" {
+							seen.garbled = fmt.Sprintf("request number %d follows request number %d (every request before it was acknowledged): %x", v.SeqNumber, lastSeq, buf[:n])
+						}
+						mu.Unlock()
 					}
 					lastSeq = int(v.SeqNumber)
+					lastReq = append(lastReq[:0], buf[:n]...)
 					if req, ok := v.Payload.(*cemi.LDataReq); ok {
 						if app, ok := req.Data.(*cemi.AppData); ok {
 							mu.Lock()
@@ -328,6 +352,7 @@ func c12SockRun(p c12SockPlan) (*common.Fail, string) {
 			for i := 0; i < nInd; i++ {
 				outstanding.Store(int32(i))
 				req := knxnet.AllocAndPack(&knxnet.TunnelReq{Channel: 9, SeqNumber: uint8(i), Payload: &cemi.LDataInd{LData: confLData(i)}})
+				req[9] = byte(p.Reserved)
 				for try := 0; try < 10; try++ {
 					pc.WriteToUDP(req, from)
 					tm := time.After(300 * time.Millisecond)
@@ -402,6 +427,8 @@ func c12SockRun(p c12SockPlan) (*common.Fail, string) {
 		}
 		defer pc.Close()
 		var inSeq uint32
+		var clientAddr atomic.Pointer[net.UDPAddr]
+		connects := make(chan struct{}, 8)
 		go func() { // the gateway: acknowledges, and relays every telegram of the client back to it as an indication
 			buf := make([]byte, 2048)
 			for {
@@ -415,7 +442,13 @@ func c12SockRun(p c12SockPlan) (*common.Fail, string) {
 				}
 				switch v := s.(type) {
 				case *knxnet.ConnReq:
+					atomic.StoreUint32(&inSeq, 0) // a new connection: the numbering of both directions restarts
+					clientAddr.Store(from)
 					pc.WriteToUDP(knxnet.AllocAndPack(&knxnet.ConnRes{Channel: 9, Status: knxnet.NoError, Control: knxnet.HostInfo{Protocol: knxnet.UDP4}}), from)
+					select {
+					case connects <- struct{}{}:
+					default:
+					}
 				case *knxnet.ConnStateReq:
 					pc.WriteToUDP(knxnet.AllocAndPack(&knxnet.ConnStateRes{Channel: v.Channel, Status: knxnet.NoError}), from)
 				case *knxnet.DiscReq:
@@ -425,7 +458,9 @@ func c12SockRun(p c12SockPlan) (*common.Fail, string) {
 					if req, ok := v.Payload.(*cemi.LDataReq); ok {
 						ind := &cemi.LDataInd{LData: req.LData}
 						seq := atomic.AddUint32(&inSeq, 1) - 1
-						pc.WriteToUDP(knxnet.AllocAndPack(&knxnet.TunnelReq{Channel: v.Channel, SeqNumber: uint8(seq), Payload: ind}), from)
+						relay := knxnet.AllocAndPack(&knxnet.TunnelReq{Channel: v.Channel, SeqNumber: uint8(seq), Payload: ind})
+						relay[9] = byte(p.Reserved)
+						pc.WriteToUDP(relay, from)
 					}
 				}
 			}
@@ -435,7 +470,17 @@ func c12SockRun(p c12SockPlan) (*common.Fail, string) {
 			return nil, "NewGroupTunnel: " + err.Error()
 		}
 		defer gt.Close()
+		<-connects
 		for i, e := range p.Events {
+			if p.ReconnAt > 0 && i == p.ReconnAt {
+				// the gateway ends the connection; the client reconnects on its own
+				pc.WriteToUDP(knxnet.AllocAndPack(&knxnet.DiscReq{Channel: 9, Status: 0, Control: knxnet.HostInfo{Protocol: knxnet.UDP4}}), clientAddr.Load())
+				select {
+				case <-connects:
+				case <-time.After(5 * time.Second):
+					return nil, "the client did not reconnect within 5 s after the gateway's disconnect request"
+				}
+			}
 			want := e.event()
 			if err := gt.Send(want); err != nil {
 				return common.Failf("send-error", "group tunnel: Send of event #%d (%d payload bytes) failed: %v", i, len(want.Data), err), ""
@@ -534,6 +579,12 @@ func TestC12Sock(t *testing.T) {
 				p.Hold = rapid.IntRange(2, len(p.Events)).Draw(rt, "hold-n")
 			}
 		}
+		if p.Kind == "tunnel" && len(p.Events) >= 3 && rapid.Bool().Draw(rt, "reconnect") {
+			p.ReconnAt = rapid.IntRange(1, len(p.Events)-1).Draw(rt, "reconnect-at")
+		}
+		if p.Kind != "router" {
+			p.Reserved = rapid.SampledFrom([]int{0, 0, 1, 0x80, 0xff}).Draw(rt, "reserved-octet")
+		}
 		rec.Class(fmt.Sprintf("%s top-of-range=%v", p.Kind, big))
 		rec.NonTrivial(common.HashJSON(p))
 		rec.Sample(p.Kind, p)
@@ -566,7 +617,7 @@ func TestC04Sock(t *testing.T) {
 		return
 	}
 	common.Drive(t, rec, func(rt *rapid.T) c12SockPlan {
-		p := c12SockPlan{Kind: "tunnel-tcp"}
+		p := c12SockPlan{Kind: "tunnel-tcp", Reserved: rapid.SampledFrom([]int{0, 0, 1, 0x80, 0xff}).Draw(rt, "reserved-octet")}
 		if rapid.Bool().Draw(rt, "duplex-udp") {
 			// UDP, both directions at once through one kernel socket: the acknowledgements of the gateway's telegrams
 			// leave while the application's requests and their repetitions do
@@ -600,6 +651,44 @@ func TestC04Sock(t *testing.T) {
 			rec.NonTrivial(common.HashJSON(p))
 		}
 		rec.Sample("tcp", p)
+		return p
+	}, run)
+	completed = true
+}
+
+// TestC03Sock: the sender's clauses on the wire of a real UDP socket with traffic in both directions (the duplex mode
+// of the C12 socket job): every datagram the gateway receives is one well-formed frame, request numbers are
+// consecutive (every request is acknowledged before the next), a repetition is identical to the first transmission -
+// while the client's acknowledgements and heartbeats leave through the same socket from other goroutines.
+func TestC03Sock(t *testing.T) {
+	rec := common.NewRec("C03", "sock")
+	completed := false
+	defer func() { rec.Finish(completed) }()
+	run := func(p c12SockPlan) *common.Fail {
+		rec.InFlight(p)
+		f, inc := c12SockRun(p)
+		rec.Landed()
+		if inc != "" {
+			rec.Inconclusive(inc)
+		}
+		return f
+	}
+	if rec.Env.Replay != "" {
+		common.ReplayOnly(t, rec, run)
+		completed = true
+		return
+	}
+	common.Drive(t, rec, func(rt *rapid.T) c12SockPlan {
+		p := c12SockPlan{Kind: "tunnel-duplex"}
+		for i := 0; i < rapid.IntRange(40, 300).Draw(rt, "events-duplex"); i++ {
+			n := rapid.SampledFrom([]int{1, 2, 5, 14, 15, 40, 120, 254}).Draw(rt, "size")
+			b := common.GenBytes(rt, "data", n, n)
+			b[0] &= 0x3f
+			p.Events = append(p.Events, c12Event{Cmd: 2, Hex: fmt.Sprintf("%x", b), Dest: uint16(1 + i)})
+		}
+		rec.Class("udp tunnel: duplex traffic")
+		rec.NonTrivial(common.HashJSON(p))
+		rec.Sample("duplex", p)
 		return p
 	}, run)
 	completed = true
